@@ -252,8 +252,15 @@ pub fn process_credential(
     trace!("process_credential >>> credential: {:?}, cred_request_metadata: {:?}, link_secret: {:?}, cred_def: {:?}, rev_reg_def: {:?}",
             credential, cred_request_metadata, secret!(&link_secret), cred_def, rev_reg_def);
 
+    // the CL layer unblinds the signature before it checks it: work on a copy, so that a
+    // credential that is refused is left as it was received
+    let mut signature = credential
+        .signature
+        .try_clone()
+        .map_err(|e| err_msg!("Unable to clone credential signature: {}", e))?;
+
     CLCredentialProver::new(link_secret).process_credential(
-        &mut credential.signature,
+        &mut signature,
         &credential.signature_correctness_proof,
         &credential.values,
         cred_request_metadata,
@@ -262,6 +269,8 @@ pub fn process_credential(
         credential.rev_reg.as_ref(),
         credential.witness.as_ref(),
     )?;
+
+    credential.signature = signature;
 
     trace!("process_credential <<< ");
 
